@@ -24,6 +24,7 @@ per-class caches (`EntityInfo.instantiated*`).
 from __future__ import annotations
 
 import itertools
+import re
 
 HEADER = '''from __future__ import annotations
 import cohdl
@@ -428,7 +429,7 @@ class Top(cohdl.Entity):
                 sync.clear()
                 self.clear_flag ^= True
             self.set_in_receiver <<= sync.is_set()
-''', tags=["seqctx", "syncflag", "coroutine", "prefix"], R=[0, 2], T=[0, 1, 3])
+''', tags=["seqctx", "syncflag", "coroutine", "prefix"], R=[2, 0], T=[1, 0, 3])
 
 _d("sync_flag_plain_sequential", '''
 class Top(cohdl.Entity):
@@ -483,7 +484,7 @@ class Top(cohdl.Entity):
         def data_transmitter():
             if self.pop and not fifo.empty():
                 self.data_out <<= fifo.pop()
-''', tags=["seqctx", "fifo", "syncflag", "prefix", "template"], W=[4], C=[4, 5], D=[0, 1, 2])
+''', tags=["seqctx", "fifo", "syncflag", "prefix", "template"], W=[4], C=[5, 4], D=[1, 0, 2])
 
 _d("seqctx_coroutine", '''
 class Top(cohdl.Entity):
@@ -822,9 +823,6 @@ class Bad(cohdl.Entity):
    N=["a", "b"])
 
 # ============================================================================= invalid
-_I = {"Top": None}
-
-
 def _i(name, stage, src, **params):
     _d(name, src, tops={"Top": stage}, **params)
 
@@ -1275,13 +1273,9 @@ def render(name, params):
         if params[k] not in d["params"][k]:
             raise ValueError(f"design {name}: parameter {k}={params[k]!r} outside its domain")
         src = src.replace(f"@{k}@", str(params[k]))
-    if "@" in src.replace(" @ ", "").replace("@=", "").replace("\n@", "\n").replace(" @", " "):
-        # decorators / matmul / variable assignment use '@' legitimately; parameters never remain
-        import re
-
-        left = re.findall(r"@[A-Z]@", src)
-        if left:
-            raise ValueError(f"design {name}: unresolved parameters {left}")
+    left = re.findall(r"@[A-Z]@", src)
+    if left:
+        raise ValueError(f"design {name}: unresolved parameters {left}")
     return src
 
 
